@@ -744,14 +744,15 @@ PROPS["C16"].update({
     "level_text": _BMC + ". Symbolic operation histories on StaticVec / RelocatableVec / PolymorphicVec, Queue / "
                   "FixedSizeQueue (incl. overflowing push), SlotMap, FlatMap and the string types against array-backed "
                   "reference models, with a drop tracker proving exactly-once drop and no access after drop.",
-    "level_note": "capacity <= 3, histories <= 6 operations, u8 values; reference models are part of the trusted base "
+    "level_note": "capacity <= 3, histories of 3-5 operations, u8 values; reference models are part of the trusted base "
                   "(<= 30 lines each)",
 })
 PROPS["C19"].update({
     "level_text": _BMC + ". For every semantic string type of bb/system-types plus ServiceName / NodeName: "
                   "accept-iff-documented-rule and round-trip for all byte strings up to the bound; every editing "
-                  "operation keeps an accepted value acceptable and equal to the model (quick: RestrictedFileName<2>, "
-                  "the same generic SemanticString code with FileName's rules; thorough: the 255-byte types); find / "
+                  "operation keeps an accepted value acceptable and equal to the model (on RestrictedFileName<2>, the "
+                  "same generic SemanticString code with FileName's rules; harnesses for the 255-byte types exist as "
+                  "tier 'extended' and are not claimed); find / "
                   "rfind; (cal) extract_name_from_file isolation for symbolic prefixes and names: a domain with an unrelated "
                   "prefix never extracts a name from another domain's file, and the prefix-of-a-prefix class is the open "
                   "finding F-C19-1 (thorough tier adds own-domain round trip, suffix isolation, prefixes of different "
@@ -770,7 +771,8 @@ PROPS["C03"].update({
                   "connection clause is decided in parts: completion-queue capacity >= buffer + max_borrow + 1 "
                   "and submission-queue capacity == buffer from the MIR of the real sizing functions (z3/cvc5), and "
                   "the used-chunk list against a set model; the end-to-end connection data path did not fit the solver.",
-    "level_note": "capacity <= 2 (3 thorough), 2-3 operations per thread, SC interleavings only: C11 weak-memory stale "
+    "level_note": "capacity <= 2, 2 operations of the preempted thread with 1-2 complete operations of the other one "
+                  "(capacity 3 and deeper schedules exist as tier 'extended', not claimed), SC interleavings only: C11 weak-memory stale "
                   "reads are outside the claim; zero_copy_connection try_send/receive/release end-to-end is outside "
                   "the claim (44 M variables at the smallest configuration)",
 })
@@ -782,7 +784,7 @@ PROPS["C05"].update({
                   "in-memory DynamicStorage and a counting model trigger: a notification that wakes the listener inside "
                   "its wait call and a second one that completes while the collected ids are handed out must both be "
                   "delivered and the following wait must never sleep on a pending notification (thorough tier adds "
-                  "symbolic notify/try_wait/blocking_wait histories and the 3-drain race).",
+                  "symbolic notify/try_wait/blocking_wait histories and a longer bit-set history).",
     "level_note": "OS trigger back-ends (semaphore, sockets) are replaced by a model trigger; ids <= 3 (hand-shake) / "
                   "<= 9 (bit set); interleavings at the hand-shake level are the two seams of the model trigger and the "
                   "user callback, not every atomic operation; timed waits, port layer (notifier.rs/listener.rs) outside "
@@ -825,7 +827,7 @@ PROPS["C12"].update({
                   "every misalignment), reader preempted at every shared operation and in the middle of its copy while "
                   "the writer completes stores, writer preempted while readers load, single-writer exclusion. "
                   + _SCHED + "; the payload copy is split into two halves with a preemption point in between.",
-    "level_note": "payload [u32;2], <= 3 stores / loads, SC interleavings only; weak-memory reorderings and payloads "
+    "level_note": "payload [u32;2], <= 2 loads with <= 2 writer actions (and the mirror image), SC interleavings only; weak-memory reorderings and payloads "
                   "copied in more than two pieces are outside the claim",
 })
 PROPS["C13"].update({
@@ -856,9 +858,10 @@ PROPS["C14"].update({
                   "part of any registered command",
 })
 PROPS["C19"].update({
-    "level_note": "strings <= 4 bytes; the specification predicates in c19.rs are trusted; ServiceName / NodeName "
+    "level_note": "strings <= 3 bytes (ServiceName <= 8, NodeName <= 4); the specification predicates in c19.rs are trusted; ServiceName / NodeName "
                   "construction is included (feature iox2), config files and real directory listing are outside the "
-                  "claim; root-path isolation (extract_name_from_path) is thorough tier only (30+ min per case); open finding "
+                  "claim; root-path isolation (extract_name_from_path) harnesses need 30+ min per case, are tier 'extended' and "
+                  "not claimed; open finding "
                   "F-C19-1 (prefix of a prefix) is reported as KNOWN-FINDING",
 })
 
